@@ -30,18 +30,18 @@ type valueName struct {
 
 type spec struct {
 	// functions / methods
-	Name     string
-	Recv     string // receiver base type name ("" for functions)
-	RecvPtr  bool
-	RecvArgs string // "[X]" for generic receivers
-	TParams  string // "[X any]" for generic funcs / types
-	Sig      string // "(a int) string"
-	Body     string // fingerprint text placed in the body; "" = bodyless
-	Uses     []string // import names used by the body
-	SigUses  []string // import names used by the signature only
-	Directive string // "", keep-original, purge, override-signature
-	DirStyle  int    // 0: // comment, 1: /* */ comment
-	Linkname  string // non-empty: bodyless function carrying a //go:linkname line
+	Name      string
+	Recv      string // receiver base type name ("" for functions)
+	RecvPtr   bool
+	RecvArgs  string   // "[X]" for generic receivers
+	TParams   string   // "[X any]" for generic funcs / types
+	Sig       string   // "(a int) string"
+	Body      string   // fingerprint text placed in the body; "" = bodyless
+	Uses      []string // import names used by the body
+	SigUses   []string // import names used by the signature only
+	Directive string   // "", keep-original, purge, override-signature
+	DirStyle  int      // 0: // comment, 1: /* */ comment
+	Linkname  string   // non-empty: bodyless function carrying a //go:linkname line
 
 	// types
 	TypeDef string // text after the name, e.g. "struct{ F int }"
